@@ -117,9 +117,40 @@ func (fr *Frame) builtinDelete(x ssa.CallInstruction, args []Val, st *State) (Va
 	return Val{}, nil
 }
 
+// execRangeNext: iteration over a map visits, in every step, an arbitrary
+// key of the map and may stop at any time — a superset of what Go does, so
+// everything proved holds for every iteration order (DESIGN §3.8 item 7).
 func (fr *Frame) execRangeNext(ins ssa.Instruction, st *State) *State {
-	fail("%s: range over map/string is outside the subset", fr.vc.posOf(ins.Pos()))
-	return nil
+	vc := fr.vc
+	switch x := ins.(type) {
+	case *ssa.Range:
+		if _, ok := x.X.Type().Underlying().(*types.Map); !ok {
+			fail("%s: range over %s is outside the subset", vc.posOf(x.Pos()), x.X.Type())
+		}
+		fr.vals[x] = fr.val(x.X)
+		return st
+	case *ssa.Next:
+		rng, ok := x.Iter.(*ssa.Range)
+		if !ok || x.IsString {
+			fail("%s: string iteration is outside the subset", vc.posOf(x.Pos()))
+		}
+		mt := rng.X.Type().Underlying().(*types.Map)
+		m := fr.val(x.Iter).T
+		mv, ms, ks, vs := vc.mapGet(st, mt, m)
+		dom := App(Sort("(Array "+string(ks)+" Bool)"), "mdom."+string(ms), mv)
+		val := App(Sort("(Array "+string(ks)+" "+string(vs)+")"), "mval."+string(ms), mv)
+		okT := vc.Fresh("next.ok", SBool)
+		k := vc.Fresh("next.key", ks)
+		st.Assume(Implies(okT, And(Not(Eq(m, IntLit(0))), Sel(dom, k, SBool))))
+		v := Sel(val, k, vs)
+		if wf := vc.wfValue(v, mt.Elem(), st); wf.S != "true" {
+			st.Assume(Implies(okT, wf))
+		}
+		vc.assumptions["map iteration: arbitrary key each step, may stop at any time (covers every order)"] = true
+		fr.vals[x] = Val{Tuple: []Val{TV(okT), TV(k), TV(v)}}
+		return st
+	}
+	return st
 }
 
 func itoa(n int) string {
